@@ -100,6 +100,12 @@ func main() {
 			if r.Thorough() && (mesh == "tetra" || mesh == "octa" || mesh == "triangle" || mesh == "square" || mesh == "L") {
 				b = 1
 			}
+			// a chain whose first operation multiplies the face count runs its second operation on a large mesh:
+			// one deviation there costs tens of thousands of slow executions per scenario (a single batch of twelve
+			// took more than an hour), so these stay at the canonical order
+			if first := n[strings.Index(n, ":")+1 : strings.Index(n, "->")]; strings.Contains(first, "LoopSubdivision") || strings.Contains(first, "SubdivideEdges") || strings.Contains(first, "Subdivide") {
+				b = 0
+			}
 		default:
 			b = 0
 			if small[mesh] {
